@@ -122,16 +122,16 @@ class Ctl(Harness):
             add("infeascb", 3, 1, cb="pos")
             add("linub", 3, 1, cb="pos")
             add("lineq", 4, 1, npt=3)
-            add("nlub", 4, 2, npt=2)
-            add("nlub", 3, 1, cb="pos", kinds="all", npt=2)
-            add("nleq", 3, 1, target=True, npt=2)
-            add("nl2", 3, 1, npt=2)
-            add("feas", 3, 1, cb="pos", npt=2)
             add("feaslin", 3, 1)
-            add("dict", 3, 1, npt=2)
-            add("fixnls", 3, 1, cb="kw", npt=2)
-            add("boxnls", 3, 1, npt=2)
-            add("linnl", 3, 1, npt=2)
+            add("nlub", 3, 1, npt=2)
+            add("nlub", 2, 1, cb="pos", kinds="all", npt=2)
+            add("nleq", 2, 1, target=True, npt=2)
+            add("nl2", 2, 1, npt=2)
+            add("feas", 3, 1, cb="pos", npt=2)
+            add("dict", 2, 1, npt=2, cb="kw")
+            add("fixnls", 2, 1, cb="kw", npt=2)
+            add("boxnls", 2, 1, npt=2, cb="pos")
+            add("linnl", 2, 1, npt=2)
         else:
             for pb in PROBLEMS:
                 n = PROBLEMS[pb]["n"]
@@ -140,7 +140,19 @@ class Ctl(Harness):
                 add(pb, 3, 2, kinds="all", npt=n + 1)
                 add(pb, 6, 2, npt=n + 1)
                 add(pb, 2, 2, cb="pos", kinds="all")
-        return S
+        def keep(d):
+            P = PROBLEMS[d["pb"]]
+            if prop == "C20":
+                return d["cb"] != "none"
+            if prop == "C09":
+                return d["cb"] != "none" or d["target"] or not P.get("fun", True)
+            if prop == "C01":
+                return P.get("bounds") is not None
+            if prop in ("C11", "C18", "C12"):
+                return d["pb"] in ("unc1", "box1", "lineq", "box2s", "linub", "fixed1") or \
+                    (d["pb"] in ("nlub", "feas", "boxnls") and d["kinds"] == "fin")
+            return True
+        return [d for d in S if keep(d)]
 
     # -- stubs --------------------------------------------------------------
     def prepare(self, ctx, shape):
